@@ -634,9 +634,12 @@ def run_catalogue(chk, tier, seed):
     step = 40
     faults = list(K.FAULTS)
     if tier == "quick":
-        jobs = [(lo, min(lo + step, n), 5000 + seed * 17, faults, seed, 0.12) for lo in range(0, n, step)]
+        # every template with valid inputs in both unit assignments (same units / differently scaled
+        # commensurable units); the injected faults on a seeded sample
+        jobs = [(lo, min(lo + step, n), 5000 + seed * 17, faults, seed, 0.12, False) for lo in range(0, n, step)]
+        jobs += [(lo, min(lo + step, n), 5000 + seed * 17, ["valid"], seed, 1.0, True) for lo in range(0, n, step)]
     else:
-        jobs = [(lo, min(lo + step, n), 7000 + seed * 29 + r, faults, seed * 3 + r, 1.0 if r == 0 else 0.3)
+        jobs = [(lo, min(lo + step, n), 7000 + seed * 29 + r, faults, seed * 3 + r, 1.0 if r == 0 else 0.3, r == 1)
                 for r in range(2) for lo in range(0, n, step)]
     with multiprocessing.get_context("fork").Pool(4) as pool:
         results = pool.map(K.sweep, jobs, chunksize=1)
@@ -646,8 +649,8 @@ def run_catalogue(chk, tier, seed):
         for c in res["cases"]:
             chk.case(("cat",) + tuple(c))
         for key, f in res["fails"].items():
-            chk.fail(key, f["what"], {"python": K.replay_snippet(f["tid"], f["dk"], f["sc"], f["seed"], f["fault"], f["pos"], f["om"], key, HARNESS),
-                                      "case": {k: f[k] for k in ("tid", "dk", "sc", "seed", "fault", "pos", "om")}})
+            chk.fail(key, f["what"], {"python": K.replay_snippet(f["tid"], f["dk"], f["sc"], f["seed"], f["fault"], f["pos"], f["om"], f["alt"], key, HARNESS),
+                                      "case": {k: f[k] for k in ("tid", "dk", "sc", "seed", "fault", "pos", "om", "alt")}})
     chk.extra["catalogue_templates"] = n
 
 
